@@ -1380,9 +1380,11 @@ static void initializer2(Token **rest, Token *tok, Initializer *init) {
     // A struct can be initialized with another struct. E.g.
     // `struct T x = y;` where y is a variable of type `struct T`.
     // Handle that case first.
+    // An expression of another struct type initializes the first
+    // member instead (brace elision, C11 6.7.9p13 and p20).
     Node *expr = assign(rest, tok);
     add_type(expr);
-    if (expr->ty->kind == TY_STRUCT) {
+    if (expr->ty->kind == TY_STRUCT && is_compatible(expr->ty, init->ty)) {
       init->expr = expr;
       return;
     }
@@ -1397,7 +1399,7 @@ static void initializer2(Token **rest, Token *tok, Initializer *init) {
       Token *end;
       Node *expr = assign(&end, tok);
       add_type(expr);
-      if (expr->ty->kind == TY_UNION) {
+      if (expr->ty->kind == TY_UNION && is_compatible(expr->ty, init->ty)) {
         init->expr = expr;
         *rest = end;
         return;
